@@ -530,6 +530,20 @@ pub fn faults(rep: &mut Report, tier: Tier) {
                         rep.viol(idx, "wf", format!("not well-formed under LP fault: {e} | {pd}"));
                         continue;
                     }
+                    // elimination only removes nodes: every survivor keeps its index, its function and its kind (a decision never turns into a
+                    // terminal that still holds its predicate)
+                    if mode == 0 {
+                        for (i, nd) in &xt.nodes {
+                            match x0.nodes.get(i) {
+                                None => rep.viol(idx, "wf", format!("node {i} appeared during elimination under LP fault | {pd}")),
+                                Some(o) => {
+                                    if o.isleaf != nd.isleaf {
+                                        rep.viol(idx, "wf", format!("node {i} changed its kind (decision <-> terminal) under LP fault: it holds {} | {pd}", if o.isleaf { "a terminal function" } else { "a predicate" }));
+                                    }
+                                }
+                            }
+                        }
+                    }
                     let mut tol = 0;
                     let region = |x: &[Q]| {
                         let (seen, _) = xu.route(x);
